@@ -182,22 +182,37 @@ class C19(common.Check):
             "after a protect and parent and child both go on protecting, and histories whose key position alternates (clock stepping between two "
             "intervals and back, two root keys used in turn), histories in which the application re-seeds Python's global PRNG with the same value "
             "before every call, public-key replies whose PublicKeyLength field is 0 / 8 / 2^32-1, histories in which the blob an earlier protect returned is protected again, "
-            "histories under a /dev/urandom that returns EOF or short reads to whoever opens it as a file, histories in which os.urandom starts raising (the child's entropy source is re-keyed, buffered state is shared). From each emitted blob the "
+            "histories under a /dev/urandom that returns EOF or short reads to whoever opens it as a file, histories run in a child interpreter with assertions compiled out (PYTHONOPTIMIZE=1), histories in which os.urandom starts raising (the child's entropy source is re-keyed, buffered state is shared). From each emitted blob the "
             "reference extracts GCM nonce and key_info and recovers the CEK; all must be pairwise distinct within the history. "
             "Non-trivial = history with >= 2 successful protects; distinct = distinct plan.")
     components = {"client": "real (public API, KeyCache, _encrypt_blob, cek_generate, new_kek)", "entropy": "simulated (os.urandom and AESGCM.generate_key seams, ledger)",
                   "clock": "simulated, frozen", "DC": "model (RefDC)", "security context": "stub (StubCtx)", "blob opener": "model (ref.cms/ref.gkdi)"}
     assumptions = ["the simulated entropy source never repeats a draw; real-world collision probability of fresh 96/256-bit values is outside the claim"]
-    required_fired = ("mode_pub", "mode_nonce", "provenance_ok", "forked_histories", "alternating_positions", "thread_histories", "thread_overlap", "app_reseed_histories", "odd_length_field_histories", "reprotect_histories", "entropy_device_fault_histories", "entropy_source_failure_histories")
+    required_fired = ("mode_pub", "mode_nonce", "provenance_ok", "forked_histories", "alternating_positions", "thread_histories", "thread_overlap", "app_reseed_histories", "odd_length_field_histories", "reprotect_histories", "entropy_device_fault_histories", "entropy_source_failure_histories", "histories_with_assertions_compiled_out")
 
     def cases(self, tier, seed):
         rng = prng.stream(seed, "C19")
         n = 1500 if tier == "quick" else 60000
-        return [gen_plan(rng, i, tier) for i in range(n)]
+        out = [gen_plan(rng, i, tier) for i in range(n)]
+        # the same kinds of histories in an interpreter started with assertions compiled out (python -O / PYTHONOPTIMIZE=1, common in
+        # containers and frozen applications): one child interpreter per case
+        rng2 = prng.stream(seed, "C19", "optimize")
+        for i in range(40 if tier == "quick" else 1200):
+            pl = gen_plan(rng2, i, tier)
+            if pl.get("kind") != "fork":
+                out.append(dict(pl, interpreter="optimize"))
+        return out
 
     def run_case(self, case):
         import json
         import os
+
+        if case.get("interpreter") == "optimize" and not os.environ.get("VERIF_PRISTINE"):
+            inner = {k: v for k, v in case.items() if k != "interpreter"}
+            v = common.run_case_fresh("C19", inner, env={"PYTHONOPTIMIZE": "1"})
+            if v:
+                v = {"sig": v["sig"] + "/python-O", "detail": "interpreter with assertions compiled out (PYTHONOPTIMIZE=1): " + v["detail"]}
+            return {"viol": v, "digest": "opt:" + (v["sig"] if v else "ok"), "key": common.key_hash(case), "fired": {}, "probes": {"histories_with_assertions_compiled_out": 1}, "vtime_ns": 0}
 
         tr = P.execute_plan(case)
         if tr.is_child:  # forked half: hand the blobs to the parent and vanish without running any exit handler
@@ -253,7 +268,7 @@ class C19(common.Check):
                 "vtime_ns": tr.world.stats.get("vtime_ns", 0)}
 
     def shrink(self, case):
-        if case.get("kind") == "fork":
+        if case.get("kind") == "fork" or case.get("interpreter"):
             return
         ops = case["ops"]
         for i in range(len(ops)):
